@@ -232,6 +232,7 @@ func (r *transport) handleUnrecognizedMethod(
 		if err != nil {
 			return nil, err
 		}
+		ensureHeader(resp)
 		internal.CacheStatusBypass.ApplyTo(resp.Header)
 		r.logger.LogCacheBypass(
 			"Bypass; unrecognized (safe) method, served from upstream.",
@@ -245,6 +246,7 @@ func (r *transport) handleUnrecognizedMethod(
 	if err != nil {
 		return nil, err
 	}
+	ensureHeader(resp)
 	if internal.IsNonErrorStatus(resp.StatusCode) {
 		refs, _ := r.cache.GetRefs(urlKey)
 		r.ci.InvalidateCache(req.URL, resp.Header, refs, urlKey)
@@ -533,7 +535,16 @@ func (r *transport) roundTripTimed(
 	resp, err = r.upstream.RoundTrip(req)
 	end = r.clock.Now()
 	if resp != nil {
+		ensureHeader(resp)
 		_ = internal.FixDateHeader(resp.Header, end)
 	}
 	return
+}
+
+// ensureHeader makes the header map of an upstream response writable: a
+// hand-written upstream may leave it nil.
+func ensureHeader(resp *http.Response) {
+	if resp.Header == nil {
+		resp.Header = make(http.Header)
+	}
 }
